@@ -25,7 +25,7 @@
 //!
 //! Spaces (all exhaustive within their bounds; flavour S = `--cfg aranya_core_verif`, fact
 //! indexes compact after 3 levels; flavour P = the shipped limit 16):
-//!  * exact: every operation sequence of length ≤ d over the *full* alphabet (7 keys × 2 names ×
+//!  * exact: every operation sequence of length ≤ d over the *full* alphabet (8 keys × 2 names ×
 //!    {v0,v1,delete} + cmd/seg/rehead/remid) appended to each preamble of p one-write segments
 //!    (two preamble families, p up to past the compaction limit).  No state merging except
 //!    identical histories.
@@ -517,17 +517,17 @@ fn preamble(family: char, p: usize) -> Vec<Op> {
     for i in 0..p {
         let op = match family {
             // A: one insert per segment, cycling through the keys
-            'A' => Op::Ins(0, (i % 7) as u8, 0),
+            'A' => Op::Ins(0, (i % 8) as u8, 0),
             // C: two commands per segment (so a mid-segment reopen is enabled at once)
             'C' => {
-                h.extend([Op::Ins(0, (i % 7) as u8, 0), Op::Cmd, Op::Del(0, ((i + 6) % 7) as u8), Op::Ins(1, (i % 7) as u8, 1), Op::Cmd, Op::Seg]);
+                h.extend([Op::Ins(0, (i % 8) as u8, 0), Op::Cmd, Op::Del(0, ((i + 6) % 8) as u8), Op::Ins(1, (i % 8) as u8, 1), Op::Cmd, Op::Seg]);
                 continue;
             }
             // B: value, newer value, tombstone for the same key, then the next key
             _ => match i % 3 {
-                0 => Op::Ins(0, ((i / 3) % 7) as u8, 0),
-                1 => Op::Ins(0, ((i / 3) % 7) as u8, 1),
-                _ => Op::Del(0, ((i / 3) % 7) as u8),
+                0 => Op::Ins(0, ((i / 3) % 8) as u8, 0),
+                1 => Op::Ins(0, ((i / 3) % 8) as u8, 1),
+                _ => Op::Del(0, ((i / 3) % 8) as u8),
             },
         };
         h.extend([op, Op::Cmd, Op::Seg]);
@@ -665,7 +665,7 @@ pub fn run(args: &Args) {
     if cap {
         rep.set("cap_hit", true);
     }
-    rep.set(&format!("bounds_{flavour}"), json!({"fact_index_depth_limit": limit, "alphabet": "7 keys {[],[\"\"],[a],[a,\"\"],[a,a],[ab],[a,ab]} x 2 names x {v0,v1,delete} + cmd, seg, rehead, remid(j)", "probes": "11 prefixes"}));
+    rep.set(&format!("bounds_{flavour}"), json!({"fact_index_depth_limit": limit, "alphabet": "8 keys {[],[\"\"],[a],[a,\"\"],[a,a],[ab],[a,ab],[ab,a]} x 2 names x {v0,v1,delete} + cmd, seg, rehead, remid(j)", "probes": "14 prefixes of length 0..3 (every key, i.e. full-length prefixes too, plus prefixes matching nothing)"}));
     for (k, v) in [
         ("segments_written", stats.segs.load(Relaxed)),
         ("compactions", stats.compactions.load(Relaxed)),
